@@ -230,7 +230,7 @@ func c10Units(tier string) []Unit {
 		query  []uint64
 	}
 	qs := []uint64{0, 1, 2, 3, 10, 11} // one ts per class of the version set {1,2,10}
-	qs2 := []uint64{1, 2, 3, 10, 11}  // classes of {2,10}
+	qs2 := []uint64{1, 2, 3, 10, 11}   // classes of {2,10}
 	var cfgs []cfg
 	if tier == "quick" {
 		cfgs = []cfg{
